@@ -350,6 +350,23 @@ impl Monitor for C08m {
                     }
                 }
             }
+            // liquidity derived from token maxima: the maxima are what the owner is prepared to PAY, so what may reach the
+            // vault is each maximum less the token program's fee on it; the result is the largest liquidity whose cost fits both
+            if by_amounts && ua != ub {
+                let mut r = codec::Rd::new(&obs.ix.data, 9);
+                let (ma, mb) = (r.u64(), r.u64());
+                let net = |mint: &solana_program::pubkey::Pubkey, m: u64| BigUint::from(m - crate::checks::c16::mint_fee(&obs.pre, mint, m).min(m));
+                let (xa, xb) = (net(&pool.token_mint_a, ma), net(&pool.token_mint_b, mb));
+                acc.count("by_amounts_checked_on_fee_pools");
+                if ea > xa || eb > xb {
+                    fail(acc, "by_amounts_cost_exceeds_max_on_transfer_fee_pool", format!("L={l} costs ({ea}, {eb}); maxima ({ma}, {mb}) leave ({xa}, {xb}) after the token program's fee"));
+                } else if l < u128::MAX {
+                    let (na, nb) = position_amounts(pool.tick_current_index, pool.sqrt_price, pp.tick_lower_index, pp.tick_upper_index, pl, pu, l + 1, true);
+                    if na <= xa && nb <= xb {
+                        fail(acc, "by_amounts_not_maximal_on_transfer_fee_pool", format!("L={l} but L+1 costs ({na}, {nb}), which still fits what the maxima ({ma}, {mb}) leave after the token program's fee ({xa}, {xb})"));
+                    }
+                }
+            }
             acc.situation(format!("{n}:fee_pool:{}", if dec { "withdraw" } else { "deposit" }));
             return;
         }
